@@ -86,4 +86,7 @@ def shape_tables(rng, vg):
     shapes.append(("ri1_prefix513", writer_cfg(ri=1, prefix=513), mk(ks, 150)))       # non-zero first offset
     ks = rand_keys(rng, 36, alpha=[0x61, 0x62], maxlen=6)
     shapes.append(("long_index_ri2", writer_cfg(ri=2), mk(ks, 520)))                  # index with several restart runs
+    # block boundaries that take the 16-bit branch of the separator rule with a carry (last key ..s FF x, next key ..s+1 00 y)
+    ks = [bytes([0x61, 0x10 + i, 0xFF if i % 2 == 0 else 0x00, 0x41 + (i % 3)]) for i in range(18)]
+    shapes.append(("sep16_carry", writer_cfg(ri=2), mk(ks, 300)))
     return shapes
